@@ -22,7 +22,7 @@ RULE = ("(a) systematic: 2..4 threads x 1..3 failing exec calls with unique path
         "isolation, deadlock = 'no runnable thread', deterministic) and in the ThreadSanitizer build, where the hand-over between "
         "threads uses raw futexes only (no happens-before edges from the harness) so that an unsynchronised access next to a "
         "switch point is reported deterministically; (b) stress: up to 64 free-running threads released from a barrier under "
-        "ThreadSanitizer, formats cycling through every data source; (c) the same call sequences single-threaded in the "
+        "ThreadSanitizer, formats cycling through every data source, file and stdout outputs, with and without a filter chain of differently named filters; (c) the same call sequences single-threaded in the "
         "non-thread-safe build. non-trivial (a) = schedule whose executed trace interleaves two calls inside the library; "
         "distinct by the executed lock/unlock interleaving string")
 
@@ -30,7 +30,8 @@ FMT = b"%{tid}|%{tid_kernel}|%{snoopy_threads}|%{filename}|%{login}|%{cmdline}"
 ALL_DS = b"".join(b"%{" + n.encode() + (b":1" if n == "cgroup" else (b":HOME" if n == "env" else b"")) + b"}|" for n in gen.ALL_SOURCES)
 
 
-CHAINS = {"none": None, "pass": b"noop;exclude_uid:7;only_uid:0", "droplast": b"noop;exclude_uid:7;only_uid:4242"}
+CHAINS = {"none": None, "pass": b"noop;exclude_uid:7;only_uid:0", "droplast": b"noop;exclude_uid:7;only_uid:4242",
+          "mixed": b"only_uid:0,4,70000;exclude_uid:4,9;exclude_spawns_of:nosuch,zz;only_root"}
 
 
 def scenario(out, shape, sched, fmt=FMT):
@@ -198,9 +199,13 @@ def stress(ctx, builds, rounds, nthreads):
     out = d.out
     try:
         for r in range(rounds):
-            fmts = [FMT, ALL_DS, b"%{login}|%{tid}|%{cmdline}|%{env_all}|%{username}|%{rpname}"]
-            ini = gen.render_ini([(b"output", b"file:" + out.encode() + b"/log"), (b"message_format", fmts[r % len(fmts)])])
-            ops = [drv.op("x", out + "/log"), drv.op("W", "log", out + "/log"), drv.op("C", ini), drv.op_env([b"LOGNAME=lg", b"HOME=/root"]),
+            fmts = [FMT, ALL_DS, b"%{login}|%{tid}|%{cmdline}|%{env_all}|%{username}|%{rpname}", b"%{datetime}|%{tid}|%{datetime:%s}|%{cmdline}"]
+            okind = ["file", "file", "file", "stdout"][r % 4]
+            opts = [(b"output", b"file:" + out.encode() + b"/log" if okind == "file" else b"stdout"), (b"message_format", fmts[r % len(fmts)])]
+            if r % 2:
+                opts.append((b"filter_chain", CHAINS["mixed"]))
+            ini = gen.render_ini(opts)
+            ops = [drv.op("x", out + "/log"), drv.op("W", "log", out + "/log"), drv.op("S", 1, "pipe"), drv.op("C", ini), drv.op_env([b"LOGNAME=lg", b"HOME=/root"]),
                    drv.op("Z", nthreads, 1)]
             for t in range(nthreads):
                 for k in range(3):
@@ -217,9 +222,17 @@ def stress(ctx, builds, rounds, nthreads):
                 return {"what": "data race reported by ThreadSanitizer at %s under stress (%s)" % (m.group(1) if m else "?", what), "observed": {"report": mine[0][:1800]}}
             if not res.clean and not (res.exitcode == 66 and reports):
                 return {"what": "crash or hang under stress (%s)" % what, "observed": {"result": res.describe(), "sanitizer": [x[:1500] for x in reports[:1]]}}
-            lines = (drv.parse_dump(res.of("G")[-1])["log"][2] or b"").split(b"\n")[:-1]
+            dump = drv.parse_dump(res.of("G")[-1])
+            lines = (dump["log" if okind == "file" else "fd1"][2] or b"").split(b"\n")[:-1]
             if len(lines) != nthreads * 3 + 1:
-                return {"what": "%d records for %d calls (%s)" % (len(lines), nthreads * 3 + 1, what), "observed": None}
+                return {"what": "%d records for %d calls (%s, output %s)" % (len(lines), nthreads * 3 + 1, what, okind), "observed": {"records": [l[:100] for l in lines[:5]]}}
+            if r % 4 in (0, 3):
+                # formats ending in the command line: every record is whole and belongs to exactly one call
+                tails = sorted(l.rsplit(b"|", 1)[-1] for l in lines)
+                want = sorted([b"s%dc%d" % (t, k) for t in range(nthreads) for k in range(3)] + [b"lone"])
+                if tails != want:
+                    bad = [l[:120] for l in lines if l.rsplit(b"|", 1)[-1] not in want][:3]
+                    return {"what": "records are not one whole record per call (%s, output %s)" % (what, okind), "observed": {"odd_records": bad}}
     finally:
         d.close()
     return None
@@ -250,7 +263,7 @@ def main():
     jobs = []
     shapes = [(2, 1), (2, 2), (3, 1)] if ctx.quick else [(2, 1), (2, 2), (3, 1), (2, 3), (3, 2), (4, 1), (4, 3)]
     # other outputs and filter chains (every libc call the library makes is a scheduling point as well)
-    shapes += [(2, 1, "stdout", "none"), (2, 1, "socket", "pass"), (2, 1, "file", "droplast"), (2, 1, "stderr", "droplast")]
+    shapes += [(2, 1, "stdout", "none"), (2, 1, "socket", "pass"), (2, 1, "file", "droplast"), (2, 1, "stderr", "droplast"), (2, 1, "file", "mixed")]
     if not ctx.quick:
         shapes += [(3, 1, "stdout", "pass"), (2, 2, "file", "droplast"), (2, 2, "socket", "none"), (3, 1, "stderr", "none")]
     for shape in shapes:
@@ -279,7 +292,9 @@ def main():
             jobs.append(("ts-plain", shape, sc))
         # ThreadSanitizer build: the default run, every single preemption of the smallest shapes, samples otherwise
         if len(shape) > 2 and ctx.quick:
-            ts = [[]]
+            # an evenly spaced sweep (every region of the call is preempted at least once), thread 0 and thread 1 alternating
+            stride = max(1, len(singles) // 70) | 1
+            ts = [[]] + singles[(ctx.seed % stride)::stride]
         else:
             ts = [[]] + (singles if shape in ((2, 1),) else rng.sample(singles, min(len(singles), 40 if ctx.quick else 400)))
         if not ctx.quick and shape == (2, 1):
@@ -297,7 +312,7 @@ def main():
                 seenkeys.add(f["key"])
                 ctx.violation(f["case"], f["observed"], f["expected"], f["what"])
     # (b) stress under ThreadSanitizer
-    v = stress(ctx, builds, 3 if ctx.quick else 30, 16 if ctx.quick else 64)
+    v = stress(ctx, builds, 4 if ctx.quick else 32, 16 if ctx.quick else 64)
     if v and len(ctx.violations) < 5:
         ctx.violation({"stress": True}, v["observed"], None, v["what"])
     # (c) non-thread-safe build, single-threaded sequence
